@@ -235,6 +235,18 @@ func scopesC05(thorough bool) []Scope {
 		Scope{Name: "H-walk-3x2", GS: synthGS(0, 2, [2]int64{6, 6}), Spec: lat.Spec{Prefix: [][]ref.P{frame}, Points: lat.Centres(3, 2), MinK: 1, MaxK: k(6, 8), Repeats: true, NoStutter: true}, IDSets: one, Cfgs: allCfgs},
 		Scope{Name: "H-any-2x2", GS: synthGS(0, 2, [2]int64{6, 6}), Spec: lat.Spec{Prefix: [][]ref.P{frame}, Points: lat.Window(2, 2, 2), MinK: 1, MaxK: k(4, 5), Repeats: true}, IDSets: one, Cfgs: keepCfgs},
 	)
+	// tiny holes on the quarter-pixel lattice around the corner shared by four pixels: a hole smaller than a pixel whose
+	// vertices nevertheless fall into 2x2 different pixels (it must come back as a real hole, with and without keep)
+	{
+		var pts []ref.P
+		for y := int64(14); y <= 18; y++ {
+			for x := int64(14); x <= 18; x++ {
+				pts = append(pts, ref.P{x, y})
+			}
+		}
+		qframe := []ref.P{{2, 2}, {30, 2}, {30, 30}, {2, 30}}
+		scs = append(scs, Scope{Name: "H-any-corner-quarter", GS: synthGS(0, 4, [2]int64{4, 4}), Spec: lat.Spec{Prefix: [][]ref.P{qframe}, Points: pts, MinK: 1, MaxK: 3, Repeats: true}, IDSets: one, Cfgs: allCfgs})
+	}
 	// holes and several tile matrices together: the keep / no-keep differential per tile matrix when the shell
 	// collapses at the coarse id but not at the fine one
 	scs = append(scs, Scope{Name: "L-multi-holes", GS: synthGS(2, 2, [2]int64{28, 28}), Spec: lat.Spec{Points: scale(lat.Window(2, 2, 2), 4), MaxK: k(3, 4), Valid: true, MaxHoles: 1, HoleMaxK: 3},
